@@ -231,6 +231,22 @@ def run_check(chk: PropertyCheck, tier: str, seed: int):
         violations.append((path, False))
         return True
 
+    # corpus: minimised past failures (witnesses found while testing seeded changes) are replayed first
+    corpus_n = 0
+    cpath = os.path.join(VERIF, "corpus", pid + ".jsonl")
+    if os.path.exists(cpath):
+        for line in open(cpath):
+            line = line.strip()
+            if not line:
+                continue
+            try:
+                w = json.loads(line)
+                fails, detail = chk.oracle_replay(ctx, w)
+            except Exception as e:
+                fails, detail = None, repr(e)
+            corpus_n += 1
+            if fails:
+                consider(w, detail, "corpus witness")
     try:
         for w, detail in chk.oracle_always(ctx):
             consider(w, detail, "property sweep on the implementation")
@@ -286,6 +302,7 @@ def run_check(chk: PropertyCheck, tier: str, seed: int):
         "histogram": res.hist,
         "correspondence_disagreements": len(res.disagreements),
         "known_findings_reproduced": known_lines,
+        "corpus_witnesses_replayed": corpus_n,
         "broken": [{"what": k, "detail": d[:500]} for k, d in broken],
         "notes": res.notes,
     }
